@@ -10,8 +10,8 @@ PROP = {
             "permutation is visible; distinct = distinct hash of (type, backend, lane bits). Classes record NaN payloads, signalling NaNs, signed zeros, MIN/MAX and the hidden-lane class.",
     "builds": {
         # the +fma,+avx2 build also enables SSE3 / SSSE3 / SSE4.x / AVX: a cfg(target_feature) fast path is only compiled there
-        "quick": [B("stable"), B("fma", 0.25), B("nightly", 0.25, False)],
-        "thorough": [B("stable"), B("fma", 0.5), B("native", 0.25), B("nightly", 0.5, False)],
+        "quick": [B("stable"), B("fma", 0.25), B("nightly", 0.25, False), B("rlayout", 0.25, False)],
+        "thorough": [B("stable"), B("fma", 0.5), B("native", 0.25), B("nightly", 0.5, False), B("rlayout", 0.25, False)],
     },
     "volume": {"quick": 2},
     "technique": "property-based testing: the complete table of swizzle method names is generated combinatorially (a missing method or type is a compile error), every method is "
